@@ -10,7 +10,10 @@ package limitscheck
 // Input: behaviours of Limits.tla with Endp = TRUE; every TakeMsg step may carry
 //
 //	"raw": true   the sender domain is spelled in upper case (normalised by the endpoint)
-//	"how": "reset" | "logout" | "data" | "datafail"   how the transaction ends (RelMsg)
+//	"how": "reset" | "logout" | "data" | "datafail" | "rcptrej"   how the transaction ends (RelMsg);
+//	       rcptrej: a recipient refused by the pipeline (550), then RSET
+//	src "null": MAIL FROM:<> (the null reverse-path); ip "lo": the client is connected through a
+//	unix socket (no TCP peer address)
 //
 // and the behaviour carries "defer": defer_sender_reject yes/no.
 //
@@ -192,6 +195,9 @@ func (r *erun) eclient(m string) *eclient {
 }
 
 func senderOf(m, src string, raw bool) string {
+	if src == NullKey {
+		return ""
+	}
 	if raw {
 		return m + "@" + strings.ToUpper(src)
 	}
@@ -249,7 +255,11 @@ func (r *erun) ecall(c *eclient, op, ip, src string, raw, planned bool, how stri
 		}()
 		switch op {
 		case "TakeMsg":
-			c.s = r.endp.VerifLimitsNewSession(&net.TCPAddr{IP: ipOf(ip), Port: 40000})
+			var peer net.Addr = &net.TCPAddr{IP: ipOf(ip), Port: 40000}
+			if ip == LoKey {
+				peer = &net.UnixAddr{Name: "/run/verif.sock", Net: "unix"}
+			}
+			c.s = r.endp.VerifLimitsNewSession(peer)
 			err := c.s.Mail(senderOf(c.name, src, raw), &smtp.MailOptions{})
 			if err == nil && r.def {
 				err = c.s.Rcpt("u@dst.example", &smtp.RcptOptions{})
@@ -262,6 +272,11 @@ func (r *erun) ecall(c *eclient, op, ip, src string, raw, planned bool, how stri
 		case "RelMsg":
 			switch how {
 			case "logout":
+			case "rcptrej":
+				if err := c.s.Rcpt("rej@dst.example", &smtp.RcptOptions{}); err == nil {
+					detail = "rcpt: refused recipient was accepted"
+				}
+				c.s.Reset()
 			case "data", "datafail":
 				if !r.def {
 					if err := c.s.Rcpt("u@dst.example", &smtp.RcptOptions{}); err != nil {
@@ -405,6 +420,8 @@ func runEndpointBehaviour(t *testing.T, b EBehaviour, w *bufio.Writer) {
 			enode("limits", nil, limitNodes(b.Cfg, b.Dual)...),
 			enode("check", nil, enode("verifc11", nil)),
 			enode("default_source", nil,
+				enode("destination", []string{"rej@dst.example"},
+					enode("reject", []string{"550", "5.1.1", "verif: no such user"})),
 				enode("default_destination", nil, enode("deliver_to", []string{"verifc11"}))),
 		}
 		if err := endp.Init(config.NewMap(map[string]interface{}{}, config.Node{Children: nodes})); err != nil {
